@@ -7,7 +7,7 @@ statements - `Lawful`, `escStr`, `containsEsc`, `fixedFmt`, ... - is defined in 
 Reading guide
   * `escape_roundtrip`, `recover_roundtrip`: for ANY codec satisfying the recorded laws `Lawful` (a structure
     parameter, not an axiom) and the handler format after fix C09-1 (`fixedFmt`): every BMP string without
-    U+DC80..DCFF and without a literal `\U+` is written, and both readers give it back.  The handler format of
+    U+DC80..DCFF and without a literal `\U+XXXX` escape is written, and both readers give it back.  The handler format of
     the *current source* is tabulated into Gen (`handlerFmt`); `source_format_fixed` proves it equals `fixedFmt`
     (=> `escape_roundtrip_source`); for the pre-fix `legacyFmt` the theorems `legacy_*_not_decoded` keep the two
     defects F1/F2 (fixed by /repo commit 2e4902f68) on record.
@@ -28,26 +28,16 @@ private theorem hexDigit_range (d : Nat) (hd : d < 16) :
     (48 ≤ hexDigit true d ∧ hexDigit true d ≤ 57) ∨ (65 ≤ hexDigit true d ∧ hexDigit true d ≤ 70) := by
   unfold hexDigit; split <;> simp <;> omega
 
-private theorem hexDigit_val (d : Nat) (hd : d < 16) :
-    (hexDigit true d ≤ 57 → hexDigit true d = 48 + d) ∧ (65 ≤ hexDigit true d → hexDigit true d = 55 + d) := by
-  unfold hexDigit; split <;> simp <;> omega
-
 private theorem upperHex_of_range {x : Nat} (h : (48 ≤ x ∧ x ≤ 57) ∨ (65 ≤ x ∧ x ≤ 70)) : isUpperHex x = true := by
   simp [isUpperHex, h]
 
-private theorem isSpace_of_range (u : UniTab) {x : Nat} (h : (48 ≤ x ∧ x ≤ 57) ∨ (65 ≤ x ∧ x ≤ 70)) :
-    isSpace u x = false := by
-  have : x < 128 := by omega
-  simp [isSpace, this]; omega
-
-private theorem digitVal_hexDigit (u : UniTab) (d : Nat) (hd : d < 16) : digitVal u (hexDigit true d) = some d := by
-  unfold hexDigit digitVal
+private theorem upperHexVal_hexDigit (d : Nat) (hd : d < 16) : upperHexVal (hexDigit true d) = d := by
+  unfold upperHexVal hexDigit
   by_cases h : d < 10
   · have : 48 + d ≤ 57 := by omega
     simp [h, this]
-  · have h1 : ¬ (48 ≤ 55 + d ∧ 55 + d ≤ 57) := by omega
-    have h2 : (65 ≤ 55 + d ∧ 55 + d ≤ 70) := by omega
-    simp [h, h1, h2]
+  · have : ¬ (55 + d ≤ 57) := by omega
+    simp [h, this]
 
 /-- value of 4 fixed hex digits -/
 private theorem hexFixed4 (x : Nat) :
@@ -55,50 +45,24 @@ private theorem hexFixed4 (x : Nat) :
       hexDigit true (x / 16 % 16), hexDigit true (x % 16)] := by
   simp [hexFixed, Nat.div_div_eq_div_mul]
 
-private theorem parse4 (u : UniTab) (a b c d : Nat) (ha : a < 16) (hb : b < 16) (hc : c < 16) (hd : d < 16) :
-    pyInt16 u [hexDigit true a, hexDigit true b, hexDigit true c, hexDigit true d]
-      = .ok (((((a * 16 + b) * 16 + c) * 16 + d : Nat) : Int)) := by
-  have ra := hexDigit_range a ha
-  have rb := hexDigit_range b hb
-  have rc := hexDigit_range c hc
-  have rd := hexDigit_range d hd
-  have sa := isSpace_of_range u ra
-  have sd := isSpace_of_range u rd
-  have hstrip : strip u [hexDigit true a, hexDigit true b, hexDigit true c, hexDigit true d]
-      = [hexDigit true a, hexDigit true b, hexDigit true c, hexDigit true d] := by
-    simp [strip, List.dropWhile, sa, sd]
-  have n43 : hexDigit true a ≠ 43 := by omega
-  have n45 : hexDigit true a ≠ 45 := by omega
-  have n95a : hexDigit true a ≠ 95 := by omega
-  have n95b : hexDigit true b ≠ 95 := by omega
-  have n95c : hexDigit true c ≠ 95 := by omega
-  have n95d : hexDigit true d ≠ 95 := by omega
-  have nx : ¬ (hexDigit true a = 48 ∧ (hexDigit true b = 120 ∨ hexDigit true b = 88)) := by omega
-  simp [pyInt16, hstrip, n43, n45, parseMagnitude, dropHexPrefix, nx, n95a, n95b, n95c, n95d, parseDigits,
-    digitVal_hexDigit, ha, hb, hc, hd, liftMag]
-
-
-private theorem decodePart_esc (u : UniTab) (x : Nat) (hx : x ≤ 0xFFFF) :
-    decodePart u (escPrefix ++ hexFixed true 4 x) = .ok [x] := by
-  have h := parse4 u (x / 4096 % 16) (x / 256 % 16) (x / 16 % 16) (x % 16)
-    (Nat.mod_lt _ (by decide)) (Nat.mod_lt _ (by decide)) (Nat.mod_lt _ (by decide)) (Nat.mod_lt _ (by decide))
-  have hv : (((x / 4096 % 16) * 16 + x / 256 % 16) * 16 + x / 16 % 16) * 16 + x % 16 = x := by omega
-  rw [hv] at h
-  simp only [decodePart, hexFixed4, escPrefix, List.cons_append, List.nil_append, List.take_succ_cons, List.take_zero,
-    List.drop_succ_cons, List.drop_zero, if_true, h]
-  have : pyChr (x : Int) = .ok x := by
-    unfold pyChr
-    have h1 : ¬ ((x : Int) < -2147483648 ∨ 2147483647 < (x : Int)) := by omega
-    have h2 : ¬ ((x : Int) < 0 ∨ 0x10FFFF < (x : Int)) := by omega
-    simp [h1, h2]
-  simp [this]
-
 private theorem matchAt_esc (x : Nat) (r : Str) : matchAt (escPrefix ++ hexFixed true 4 x ++ r) = some r := by
   have u1 := upperHex_of_range (hexDigit_range (x / 4096 % 16) (Nat.mod_lt _ (by decide)))
   have u2 := upperHex_of_range (hexDigit_range (x / 256 % 16) (Nat.mod_lt _ (by decide)))
   have u3 := upperHex_of_range (hexDigit_range (x / 16 % 16) (Nat.mod_lt _ (by decide)))
   have u4 := upperHex_of_range (hexDigit_range (x % 16) (Nat.mod_lt _ (by decide)))
   simp [hexFixed4, escPrefix, matchAt, u1, u2, u3, u4]
+
+private theorem decodePart_esc (x : Nat) (hx : x ≤ 0xFFFF) :
+    decodePart (escPrefix ++ hexFixed true 4 x) = [x] := by
+  have hm := matchAt_esc x []
+  simp only [List.append_nil] at hm
+  have hv : ((x / 4096 % 16) * 16 + x / 256 % 16) * 16 + x / 16 % 16 = x / 16 := by omega
+  have hv2 : x / 16 * 16 + x % 16 = x := by omega
+  unfold decodePart
+  rw [hm]
+  simp only [hexFixed4, escPrefix, List.cons_append, List.nil_append]
+  rw [upperHexVal_hexDigit _ (Nat.mod_lt _ (by decide)), upperHexVal_hexDigit _ (Nat.mod_lt _ (by decide)),
+    upperHexVal_hexDigit _ (Nat.mod_lt _ (by decide)), upperHexVal_hexDigit _ (Nat.mod_lt _ (by decide)), hv, hv2]
 
 private theorem reSplit_nil (lit : Str) : reSplit lit [] = [lit] := by
   rw [reSplit]
@@ -117,45 +81,72 @@ private theorem reSplit_match (lit : Str) (x : Nat) (r rest : Str) (h : matchAt 
   · rename_i rest' h'; rw [h] at h'; cases h'; rfl
   · rename_i h'; rw [h] at h'; cases h'
 
+/-! strings without a match of `\U+[A-F0-9]{4}` -/
 
-private theorem containsEsc_append (a b : Str) (h : containsEsc (a ++ b) = false) :
-    containsEsc a = false ∧ containsEsc b = false := by
+/-- shape of a match -/
+private theorem matchAt_some (s rest : Str) (h : matchAt s = some rest) :
+    ∃ a b c d, s = 92 :: 85 :: 43 :: a :: b :: c :: d :: rest ∧ isUpperHex a = true ∧ isUpperHex b = true
+      ∧ isUpperHex c = true ∧ isUpperHex d = true := by
+  match s, h with
+  | [], h | [_], h | [_, _], h | [_, _, _], h | [_, _, _, _], h | [_, _, _, _, _], h | [_, _, _, _, _, _], h =>
+    simp [matchAt] at h
+  | p :: u :: q :: a :: b :: c :: d :: t, h =>
+    simp only [matchAt] at h
+    split at h
+    · rename_i hc
+      cases h
+      obtain ⟨h1, h2, h3, h4, h5, h6, h7⟩ := hc
+      exact ⟨a, b, c, d, by rw [h1, h2, h3], h4, h5, h6, h7⟩
+    · cases h
+
+private theorem matchAt_mk (a b c d : Nat) (rest : Str) (ha : isUpperHex a = true) (hb : isUpperHex b = true)
+    (hc : isUpperHex c = true) (hd : isUpperHex d = true) :
+    matchAt (92 :: 85 :: 43 :: a :: b :: c :: d :: rest) = some rest := by
+  simp [matchAt, ha, hb, hc, hd]
+
+private theorem hasDxf_mid (a s rest : Str) (h : matchAt s = some rest) : hasDxfUnicode (a ++ s) = true := by
+  obtain ⟨p, q, r, t, hs, _⟩ := matchAt_some s rest h
   induction a with
-  | nil => simpa [containsEsc] using h
+  | nil => subst hs; simp [hasDxfUnicode, h]
+  | cons x a ih => simp [hasDxfUnicode, ih]
+
+private theorem hasDxf_append (a b : Str) (h : hasDxfUnicode (a ++ b) = false) :
+    hasDxfUnicode a = false ∧ hasDxfUnicode b = false := by
+  induction a with
+  | nil => simpa [hasDxfUnicode] using h
   | cons x a ih =>
-    simp only [List.cons_append, containsEsc, Bool.or_eq_false_iff] at h ⊢
+    simp only [List.cons_append, hasDxfUnicode, Bool.or_eq_false_iff] at h ⊢
     obtain ⟨h1, h2⟩ := h
     have := ih h2
     refine ⟨⟨?_, this.1⟩, this.2⟩
-    -- prefix of (x :: a) is a prefix of (x :: a ++ b)
-    cases hp : escPrefix.isPrefixOf (x :: a) with
-    | false => rfl
-    | true =>
-      have hp' : escPrefix <+: x :: a := List.isPrefixOf_iff_prefix.mp hp
-      have : escPrefix <+: x :: (a ++ b) := by
-        have := hp'.trans (List.prefix_append (x :: a) b)
-        simpa using this
-      rw [List.isPrefixOf_iff_prefix.mpr this] at h1
-      cases h1
+    cases hm : matchAt (x :: a) with
+    | none => rfl
+    | some rest =>
+      exfalso
+      obtain ⟨p, q, r, t, hs, hp, hq, hr, ht⟩ := matchAt_some _ rest hm
+      have : matchAt (x :: (a ++ b)) = some (rest ++ b) := by
+        have e : x :: (a ++ b) = (x :: a) ++ b := rfl
+        rw [e, hs]
+        exact matchAt_mk p q r t (rest ++ b) hp hq hr ht
+      rw [this] at h1
+      simp at h1
 
-private theorem containsEsc_mid (a r : Str) : containsEsc (a ++ 92 :: 85 :: 43 :: r) = true := by
-  induction a with
-  | nil => simp [containsEsc, escPrefix, List.isPrefixOf]
-  | cons x a ih => simp [containsEsc, ih]
+private theorem matchAt_none_of (s : Str) (h : hasDxfUnicode s = false) : matchAt s = none := by
+  cases s with
+  | nil => simp [matchAt]
+  | cons x r =>
+    simp only [hasDxfUnicode, Bool.or_eq_false_iff] at h
+    cases hm : matchAt (x :: r) with
+    | none => rfl
+    | some _ => rw [hm] at h; simp at h
 
-private theorem take3_ne (t : Str) (h : containsEsc t = false) : t.take 3 ≠ escPrefix := by
-  intro h3
-  have : t = 92 :: 85 :: 43 :: t.drop 3 := by
-    conv => lhs; rw [← List.take_append_drop 3 t, h3]
-    rfl
-  rw [this] at h
-  have := containsEsc_mid [] (t.drop 3)
-  simp at this
-  rw [this] at h
-  cases h
+private theorem decodePart_lit (t : Str) (h : hasDxfUnicode t = false) : decodePart t = t := by
+  unfold decodePart
+  rw [matchAt_none_of t h]
 
-private theorem decodePart_lit (u : UniTab) (t : Str) (h : containsEsc t = false) : decodePart u t = .ok t := by
-  simp [decodePart, take3_ne t h]
+private theorem hasDxf_tail (x : Nat) (r : Str) (h : hasDxfUnicode (x :: r) = false) : hasDxfUnicode r = false := by
+  simp only [hasDxfUnicode, Bool.or_eq_false_iff] at h
+  exact h.2
 
 private theorem escStr_nil (c : Codec) : escStr c [] = [] := rfl
 
@@ -173,48 +164,54 @@ private theorem escStr_head (c : Codec) (r : Str) (h : Nat) (t : Str) (he : escS
     · simp at he; exact ⟨r', by rw [he.1], he.2.symm⟩
     · simp [escPrefix] at he; omega
 
-private theorem unescape_aux (u : UniTab) (c : Codec)
-    (s : Str) : ∀ lit : Str, containsEsc (lit ++ s) = false → (∀ x ∈ s, x ≤ 0xFFFF) →
-    joinDecoded u (reSplit lit (escStr c s)) = .ok (lit ++ s) := by
+private theorem hex_ne_92 {x : Nat} (h : isUpperHex x = true) : x ≠ 92 := by
+  simp [isUpperHex] at h; omega
+
+/-- a match that starts at a literal character of the written text is a match of the source string -/
+private theorem matchAt_lit (c : Codec) (x : Nat) (r rest : Str) (h : matchAt (x :: escStr c r) = some rest) :
+    ∃ rest', matchAt (x :: r) = some rest' := by
+  obtain ⟨p, q, a, b, hs, hp, hq, ha, hb⟩ := matchAt_some _ rest h
+  simp only [List.cons.injEq] at hs
+  obtain ⟨hx, he⟩ := hs
+  obtain ⟨r1, hr1, ht1⟩ := escStr_head c r 85 _ he (by omega)
+  obtain ⟨r2, hr2, ht2⟩ := escStr_head c r1 43 _ ht1.symm (by omega)
+  obtain ⟨r3, hr3, ht3⟩ := escStr_head c r2 p _ ht2.symm (hex_ne_92 hp)
+  obtain ⟨r4, hr4, ht4⟩ := escStr_head c r3 q _ ht3.symm (hex_ne_92 hq)
+  obtain ⟨r5, hr5, ht5⟩ := escStr_head c r4 a _ ht4.symm (hex_ne_92 ha)
+  obtain ⟨r6, hr6, _⟩ := escStr_head c r5 b _ ht5.symm (hex_ne_92 hb)
+  refine ⟨r6, ?_⟩
+  rw [hx, hr1, hr2, hr3, hr4, hr5, hr6]
+  exact matchAt_mk p q a b r6 hp hq ha hb
+
+private theorem matchAt_lit_none (c : Codec) (x : Nat) (r : Str) (h : hasDxfUnicode (x :: r) = false) :
+    matchAt (x :: escStr c r) = none := by
+  cases hm : matchAt (x :: escStr c r) with
+  | none => rfl
+  | some rest =>
+    exfalso
+    obtain ⟨rest', h'⟩ := matchAt_lit c x r rest hm
+    have := hasDxf_mid [] (x :: r) rest' h'
+    simp only [List.nil_append] at this
+    rw [this] at h; cases h
+
+private theorem unescape_aux (c : Codec) (s : Str) : ∀ lit : Str, hasDxfUnicode (lit ++ s) = false →
+    (∀ x ∈ s, x ≤ 0xFFFF) → (reSplit lit (escStr c s)).flatMap decodePart = lit ++ s := by
   induction s with
   | nil =>
     intro lit h _
-    simp at h
-    simp [escStr_nil, reSplit_nil, joinDecoded, decodePart_lit u lit h, Except.map]
+    simp only [List.append_nil] at h
+    simp [escStr_nil, reSplit_nil, decodePart_lit lit h]
   | cons x r ih =>
     intro lit h hb
     have hx : x ≤ 0xFFFF := hb x (by simp)
     have hb' : ∀ y ∈ r, y ≤ 0xFFFF := fun y hy => hb y (by simp [hy])
+    have hl := hasDxf_append lit (x :: r) h
     rw [escStr_cons]
     unfold escChar
     split
-    · -- encodable: literal character, no match can start here
-      rename_i hsome
-      have hnm : matchAt (x :: escStr c r) = none := by
-        cases hm : matchAt (x :: escStr c r) with
-        | none => rfl
-        | some rest =>
-          exfalso
-          -- the match forces x = '\\', then 'U', '+' literally in r
-          match he : escStr c r with
-          | [] => rw [he] at hm; simp [matchAt] at hm
-          | [_] => rw [he] at hm; simp [matchAt] at hm
-          | a :: b :: t =>
-            rw [he] at hm
-            have hxab : x = 92 ∧ a = 85 ∧ b = 43 := by
-              match t with
-              | [] | [_] | [_, _] | [_, _, _] => simp [matchAt] at hm
-              | _ :: _ :: _ :: _ :: _ =>
-                simp only [matchAt] at hm
-                split at hm
-                · rename_i hc; exact ⟨hc.1, hc.2.1, hc.2.2.1⟩
-                · cases hm
-            obtain ⟨r1, hr1, ht1⟩ := escStr_head c r a (b :: t) he (by omega)
-            obtain ⟨r2, hr2, _⟩ := escStr_head c r1 b t ht1.symm (by omega)
-            rw [hr1, hr2, hxab.1, hxab.2.1, hxab.2.2, containsEsc_mid] at h
-            cases h
+    · -- encodable: a literal character, no match can start here
       simp only [List.singleton_append]
-      rw [reSplit_nomatch _ _ _ hnm]
+      rw [reSplit_nomatch _ _ _ (matchAt_lit_none c x r hl.2)]
       have := ih (lit ++ [x]) (by simpa using h) hb'
       simpa using this
     · -- not encodable: the escape is matched and decoded
@@ -226,13 +223,8 @@ private theorem unescape_aux (u : UniTab) (c : Codec)
       have htake : (92 :: (85 :: 43 :: hexFixed true 4 x ++ escStr c r)).take 7 = escPrefix ++ hexFixed true 4 x := by
         simp [hexFixed4, escPrefix]
       rw [htake]
-      have hl := containsEsc_append lit (x :: r) h
-      have hr : containsEsc ([] ++ r) = false := by
-        have := hl.2
-        simp only [containsEsc, Bool.or_eq_false_iff] at this
-        simpa using this.2
-      simp [joinDecoded, decodePart_lit u lit hl.1, decodePart_esc u x hx, ih [] hr hb', Except.map]
-
+      have hr : hasDxfUnicode ([] ++ r) = false := by simpa using hasDxf_tail x r hl.2
+      simp [decodePart_lit lit hl.1, decodePart_esc x hx, ih [] hr hb']
 
 private theorem find_fixed (x : Nat) (hx : x ≤ 0xFFFF) (hs : isEscSurrogate x = false) :
     fixedFmt.find x = some (.esc escPrefix 4 true) := by
@@ -373,9 +365,9 @@ theorem encode_eq_escStr (c : Codec) (good : Nat → Prop) (L : Lawful c good) (
   have := encodeAux_fixed c good L s [] (by simp) (by simp) (by simpa using hs)
   simpa [encode] using this
 
-theorem unescape_escStr (u : UniTab) (c : Codec) (s : Str) (hn : containsEsc s = false)
-    (hb : ∀ x ∈ s, x ≤ 0xFFFF) : decodeDxfUnicode u (escStr c s) = .ok s := by
-  have := unescape_aux u c s [] (by simpa using hn) hb
+theorem unescape_escStr (c : Codec) (s : Str) (hn : hasDxfUnicode s = false)
+    (hb : ∀ x ∈ s, x ≤ 0xFFFF) : decodeDxfUnicode (escStr c s) = s := by
+  have := unescape_aux c s [] (by simpa using hn) hb
   simpa [decodeDxfUnicode] using this
 
 private theorem escStr_good (c : Codec) (good : Nat → Prop) (L : Lawful c good) (s : Str)
@@ -389,52 +381,20 @@ private theorem escStr_good (c : Codec) (good : Nat → Prop) (L : Lawful c good
   · have := esc4_printable x y hyx
     exact (L.ascii y this.1 this.2).1
 
-theorem escape_roundtrip (u : UniTab) (c : Codec) (good : Nat → Prop) (L : Lawful c good) (s : Str)
+theorem escape_roundtrip (c : Codec) (good : Nat → Prop) (L : Lawful c good) (s : Str)
     (hs : ∀ x ∈ s, x ≤ 0xFFFF ∧ isEscSurrogate x = false ∧ ((c.enc x).isSome → good x))
-    (hn : containsEsc s = false) :
-    ∃ b, encode c fixedFmt s = .ok b ∧ decodeDxfUnicode u (c.dec b) = .ok s := by
+    (hn : hasDxfUnicode s = false) :
+    ∃ b, encode c fixedFmt s = .ok b ∧ decodeDxfUnicode (c.dec b) = s := by
   refine ⟨encAll c (escStr c s), encode_eq_escStr c good L s (fun x hx => ⟨(hs x hx).1, (hs x hx).2.1⟩), ?_⟩
   rw [L.dec_enc _ (escStr_good c good L s (fun x hx => (hs x hx).2.2))]
-  exact unescape_escStr u c s hn (fun x hx => (hs x hx).1)
+  exact unescape_escStr c s hn (fun x hx => (hs x hx).1)
 
-
-private theorem matchAt_lit_none (c : Codec) (x : Nat) (r : Str) (h : containsEsc (x :: r) = false) :
-    matchAt (x :: escStr c r) = none := by
-  cases hm : matchAt (x :: escStr c r) with
-  | none => rfl
-  | some rest =>
-    exfalso
-    match he : escStr c r with
-    | [] => rw [he] at hm; simp [matchAt] at hm
-    | [_] => rw [he] at hm; simp [matchAt] at hm
-    | a :: b :: t =>
-      rw [he] at hm
-      have hxab : x = 92 ∧ a = 85 ∧ b = 43 := by
-        match t with
-        | [] | [_] | [_, _] | [_, _, _] => simp [matchAt] at hm
-        | _ :: _ :: _ :: _ :: _ =>
-          simp only [matchAt] at hm
-          split at hm
-          · rename_i hc; exact ⟨hc.1, hc.2.1, hc.2.2.1⟩
-          · cases hm
-      obtain ⟨r1, hr1, ht1⟩ := escStr_head c r a (b :: t) he (by omega)
-      obtain ⟨r2, hr2, _⟩ := escStr_head c r1 b t ht1.symm (by omega)
-      have := containsEsc_mid [] r2
-      rw [hr1, hr2, hxab.1, hxab.2.1, hxab.2.2] at h
-      simp at this
-      rw [this] at h
-      cases h
-
-private theorem containsEsc_tail (x : Nat) (r : Str) (h : containsEsc (x :: r) = false) : containsEsc r = false := by
-  simp only [containsEsc, Bool.or_eq_false_iff] at h
-  exact h.2
-
-theorem hasDxfUnicode_escStr (c : Codec) (s : Str) (hn : containsEsc s = false) :
+theorem hasDxfUnicode_escStr (c : Codec) (s : Str) (hn : hasDxfUnicode s = false) :
     hasDxfUnicode (escStr c s) = s.any (fun x => (c.enc x).isNone) := by
   induction s with
   | nil => rfl
   | cons x r ih =>
-    have ih' := ih (containsEsc_tail x r hn)
+    have ih' := ih (hasDxf_tail x r hn)
     rw [escStr_cons]
     unfold escChar
     cases hx : c.enc x with
@@ -456,32 +416,43 @@ private theorem escStr_all_encodable (c : Codec) (s : Str) (h : ∀ x ∈ s, (c.
     rw [escStr_cons, ih (fun y hy => h y (by simp [hy]))]
     simp [escChar, h x (by simp)]
 
-private theorem hasDxfUnicode_lit (s : Str) (hn : containsEsc s = false) : hasDxfUnicode s = false := by
-  induction s with
-  | nil => rfl
-  | cons x r ih =>
-    simp only [hasDxfUnicode, ih (containsEsc_tail x r hn), Bool.or_false]
-    cases hm : matchAt (x :: r) with
-    | none => rfl
-    | some rest =>
-      exfalso
-      match r, hm with
-      | p :: q :: a :: b :: cc :: d :: t, hm =>
-        simp only [matchAt] at hm
-        split at hm
-        · rename_i hc
-          have := containsEsc_mid [] (a :: b :: cc :: d :: t)
-          rw [hc.1, hc.2.1, hc.2.2.1] at hn
-          simp at this
-          rw [this] at hn; cases hn
-        · cases hm
-      | [], hm | [_], hm | [_, _], hm | [_, _, _], hm | [_, _, _, _], hm | [_, _, _, _, _], hm => simp [matchAt] at hm
+private theorem containsEsc_mid (a r : Str) : containsEsc (a ++ 92 :: 85 :: 43 :: r) = true := by
+  induction a with
+  | nil => simp [containsEsc, escPrefix, List.isPrefixOf]
+  | cons x a ih => simp [containsEsc, ih]
+
+/-- a string that does not contain the text `\U+` at all has no match (the hypothesis of the round trip
+    theorems, `hasDxfUnicode s = false`, is weaker: `\U+` may occur as long as no four upper case hex digits follow) -/
+theorem no_escape_prefix_no_match (s : Str) (hn : containsEsc s = false) : hasDxfUnicode s = false := by
+  cases h : hasDxfUnicode s with
+  | false => rfl
+  | true =>
+    exfalso
+    -- some suffix matches, so `\U+` occurs
+    have key : ∀ t : Str, hasDxfUnicode t = true → ∃ a r, t = a ++ 92 :: 85 :: 43 :: r := by
+      intro t
+      induction t with
+      | nil => intro ht; simp [hasDxfUnicode] at ht
+      | cons x r ih =>
+        intro ht
+        simp only [hasDxfUnicode, Bool.or_eq_true] at ht
+        rcases ht with ht | ht
+        · cases hm : matchAt (x :: r) with
+          | none => rw [hm] at ht; simp at ht
+          | some rest =>
+            obtain ⟨a, b, c, d, hs, _⟩ := matchAt_some _ rest hm
+            exact ⟨[], a :: b :: c :: d :: rest, by simpa using hs⟩
+        · obtain ⟨a, r', hr⟩ := ih ht
+          exact ⟨x :: a, r', by rw [hr]; rfl⟩
+    obtain ⟨a, r, hs⟩ := key s h
+    rw [hs, containsEsc_mid] at hn
+    cases hn
 
 /-- the recover loader decodes the written text back to the original string -/
-theorem recover_roundtrip (u : UniTab) (c : Codec) (good : Nat → Prop) (L : Lawful c good) (s : Str)
+theorem recover_roundtrip (c : Codec) (good : Nat → Prop) (L : Lawful c good) (s : Str)
     (hs : ∀ x ∈ s, x ≤ 0xFFFF ∧ isEscSurrogate x = false ∧ ((c.enc x).isSome → good x))
-    (hn : containsEsc s = false) (hm : hasMif s = false) :
-    ∃ b, encode c fixedFmt s = .ok b ∧ recoverStr u (c.dec b) = .ok (.text s) := by
+    (hn : hasDxfUnicode s = false) (hm : hasMif s = false) :
+    ∃ b, encode c fixedFmt s = .ok b ∧ recoverStr (c.dec b) = .text s := by
   refine ⟨encAll c (escStr c s), encode_eq_escStr c good L s (fun x hx => ⟨(hs x hx).1, (hs x hx).2.1⟩), ?_⟩
   rw [L.dec_enc _ (escStr_good c good L s (fun x hx => (hs x hx).2.2))]
   unfold recoverStr
@@ -489,8 +460,7 @@ theorem recover_roundtrip (u : UniTab) (c : Codec) (good : Nat → Prop) (L : La
   cases ha : s.any (fun x => (c.enc x).isNone) with
   | true =>
     simp only [if_true]
-    rw [unescape_escStr u c s hn (fun x hx => (hs x hx).1)]
-    rfl
+    rw [unescape_escStr c s hn (fun x hx => (hs x hx).1)]
   | false =>
     have hall : ∀ x ∈ s, (c.enc x).isSome := by
       intro x hx
@@ -796,23 +766,65 @@ private theorem reSplit_lit (s : Str) : ∀ lit, hasDxfUnicode s = false → reS
     rw [reSplit_nomatch _ _ _ hm, ih _ h.2]
     simp
 
-theorem decode_lit (u : UniTab) (s : Str) (hn : containsEsc s = false) : decodeDxfUnicode u s = .ok s := by
+private theorem decodePart_length (p : Str) : (decodePart p).length ≤ p.length := by
+  unfold decodePart
+  split
+  · simp
+  · exact Nat.le_refl _
+
+private theorem reSplit_flatten (lit s : Str) : (reSplit lit s).flatten = lit ++ s := by
+  fun_induction reSplit lit s with
+  | case1 lit => simp
+  | case2 lit x r rest hm ih =>
+    have := matchAt_length hm
+    simp only [List.flatten_cons, ih, List.nil_append]
+    -- (x :: r) = take 7 ++ rest
+    have hr : rest = (x :: r).drop 7 := by
+      match r, hm with
+      | u :: q :: a :: b :: c :: d :: t, hm =>
+        simp only [matchAt] at hm
+        split at hm
+        · cases hm; rfl
+        · cases hm
+      | [], hm | [_], hm | [_, _], hm | [_, _, _], hm | [_, _, _, _], hm | [_, _, _, _, _], hm => simp [matchAt] at hm
+    rw [hr, List.take_append_drop]
+  | case3 lit x r hm ih => simp [ih]
+
+/-- `decode_dxf_unicode` is total (a plain function of the model; the real function never raises in the
+    correspondence stream) and its result is never longer than the input -/
+theorem decode_length_le (s : Str) : (decodeDxfUnicode s).length ≤ s.length := by
   unfold decodeDxfUnicode
-  rw [reSplit_lit s [] (hasDxfUnicode_lit s hn)]
-  simp [joinDecoded, decodePart_lit u s hn, Except.map]
+  have h := reSplit_flatten [] s
+  have key : ∀ l : List Str, (l.flatMap decodePart).length ≤ l.flatten.length := by
+    intro l
+    induction l with
+    | nil => simp
+    | cons p ps ih =>
+      simp only [List.flatMap_cons, List.flatten_cons, List.length_append]
+      have := decodePart_length p
+      omega
+  have := key (reSplit [] s)
+  rw [h] at this
+  simpa using this
+
+/-- `decode_dxf_unicode` is the identity on a string without a match of `\\U\+[A-F0-9]{4}` -/
+theorem decode_nomatch (s : Str) (hn : hasDxfUnicode s = false) : decodeDxfUnicode s = s := by
+  unfold decodeDxfUnicode
+  rw [reSplit_lit s [] hn]
+  simp [decodePart_lit s hn]
 
 /-- R2007+ (UTF-8): nothing is escaped whatever the handler does, every string of Unicode scalar values
     (all planes) is written as its UTF-8 encoding and read back identical by both readers -/
-theorem utf8_identity (f : Fmt) (u : UniTab) (s : Str) (hs : ∀ x ∈ s, scalar x) (hn : containsEsc s = false) :
-    ∃ b, encode utf8Codec f s = .ok b ∧ utf8Codec.dec b = s ∧ decodeDxfUnicode u (utf8Codec.dec b) = .ok s
-      ∧ (hasMif s = false → recoverStr u (utf8Codec.dec b) = .ok (.text s)) := by
+theorem utf8_identity (f : Fmt) (s : Str) (hs : ∀ x ∈ s, scalar x) (hn : hasDxfUnicode s = false) :
+    ∃ b, encode utf8Codec f s = .ok b ∧ utf8Codec.dec b = s ∧ decodeDxfUnicode (utf8Codec.dec b) = s
+      ∧ (hasMif s = false → recoverStr (utf8Codec.dec b) = .text s) := by
   have henc : ∀ x ∈ s, (utf8Codec.enc x).isSome := fun x hx => utf8_lawful.enc_some x (hs x hx)
   have hdec : utf8Codec.dec (encAll utf8Codec s) = s := utf8_lawful.dec_enc s hs
   refine ⟨encAll utf8Codec s, encode_all_encodable utf8Codec f s henc, hdec, ?_, ?_⟩
-  · rw [hdec]; exact decode_lit u s hn
+  · rw [hdec]; exact decode_nomatch s hn
   · intro hm
     rw [hdec]
-    simp [recoverStr, hasDxfUnicode_lit s hn, hm]
+    simp [recoverStr, hn, hm]
 
 /-! name tables -/
 
@@ -912,16 +924,16 @@ theorem lf_free : ∀ d ∈ dbcsInfos,
 theorem source_format_fixed : handlerFmt = fixedFmt := by decide +kernel
 
 /-- `escape_roundtrip` + `recover_roundtrip` for the handler of the current source -/
-theorem escape_roundtrip_source (u : UniTab) (c : Codec) (good : Nat → Prop) (L : Lawful c good) (s : Str)
+theorem escape_roundtrip_source (c : Codec) (good : Nat → Prop) (L : Lawful c good) (s : Str)
     (hs : ∀ x ∈ s, x ≤ 0xFFFF ∧ isEscSurrogate x = false ∧ ((c.enc x).isSome → good x))
-    (hn : containsEsc s = false) :
-    ∃ b, encode c handlerFmt s = .ok b ∧ decodeDxfUnicode u (c.dec b) = .ok s
-      ∧ (hasMif s = false → recoverStr u (c.dec b) = .ok (.text s)) := by
+    (hn : hasDxfUnicode s = false) :
+    ∃ b, encode c handlerFmt s = .ok b ∧ decodeDxfUnicode (c.dec b) = s
+      ∧ (hasMif s = false → recoverStr (c.dec b) = .text s) := by
   rw [source_format_fixed]
-  obtain ⟨b, hb1, hb2⟩ := escape_roundtrip u c good L s hs hn
+  obtain ⟨b, hb1, hb2⟩ := escape_roundtrip c good L s hs hn
   refine ⟨b, hb1, hb2, ?_⟩
   intro hm
-  obtain ⟨b', hb1', hb2'⟩ := recover_roundtrip u c good L s hs hn hm
+  obtain ⟨b', hb1', hb2'⟩ := recover_roundtrip c good L s hs hn hm
   rw [hb1] at hb1'; cases hb1'; exact hb2'
 
 theorem regex_patterns_as_modelled :
@@ -932,7 +944,6 @@ theorem grouped_as_modelled :
     (∀ p ∈ sbcsTables, (p.1, true) ∈ grouped) ∧ ([117, 116, 102, 56], true) ∈ grouped
       ∧ ([97, 115, 99, 105, 105], true) ∈ grouped ∧ (∀ d ∈ dbcsInfos, (d.name, false) ∈ grouped) := by
   decide +kernel
-
 
 private theorem idxOf_some_mem (x : Nat) (t : List Nat) (h : (idxOf x t).isSome) : x ∈ t := by
   induction t with
@@ -946,11 +957,11 @@ private theorem idxOf_some_mem (x : Nat) (t : List Nat) (h : (idxOf x t).isSome)
       | some j => exact List.mem_cons_of_mem _ (ih (by simp [hr]))
 
 /-- the ten single-byte code pages, unconditionally (tables regenerated from the codecs) -/
-theorem escape_roundtrip_single_byte_pages (u : UniTab) : ∀ p ∈ sbcsTables, ∀ s : Str,
-    (∀ x ∈ s, x ≤ 0xFFFF ∧ isEscSurrogate x = false) → containsEsc s = false →
+theorem escape_roundtrip_single_byte_pages : ∀ p ∈ sbcsTables, ∀ s : Str,
+    (∀ x ∈ s, x ≤ 0xFFFF ∧ isEscSurrogate x = false) → hasDxfUnicode s = false →
     ∃ b, encode (sbcsCodec p.2) fixedFmt s = .ok b
-      ∧ decodeDxfUnicode u ((sbcsCodec p.2).dec b) = .ok s
-      ∧ (hasMif s = false → recoverStr u ((sbcsCodec p.2).dec b) = .ok (.text s))
+      ∧ decodeDxfUnicode ((sbcsCodec p.2).dec b) = s
+      ∧ (hasMif s = false → recoverStr ((sbcsCodec p.2).dec b) = .text s)
       ∧ ((∀ x ∈ s, x ≠ 0 ∧ x ≠ 10 ∧ x ≠ 13) → ∀ y ∈ b, y ≠ 0 ∧ y ≠ 10 ∧ y ≠ 13) := by
   intro p hp s hs hn
   have L := sbcs_tables_lawful p hp
@@ -965,10 +976,10 @@ theorem escape_roundtrip_single_byte_pages (u : UniTab) : ∀ p ∈ sbcsTables, 
     · rename_i hne
       refine ⟨idxOf_some_mem x p.2 ?_, hne⟩
       cases hi : idxOf x p.2 <;> simp [hi] at he ⊢
-  obtain ⟨b, hb1, hb2⟩ := escape_roundtrip u _ _ L s hs' hn
+  obtain ⟨b, hb1, hb2⟩ := escape_roundtrip _ _ L s hs' hn
   refine ⟨b, hb1, hb2, ?_, ?_⟩
   · intro hm
-    obtain ⟨b', hb1', hb2'⟩ := recover_roundtrip u _ _ L s hs' hn hm
+    obtain ⟨b', hb1', hb2'⟩ := recover_roundtrip _ _ L s hs' hn hm
     rw [hb1] at hb1'; cases hb1'; exact hb2'
   · intro hc
     obtain ⟨b', hb1', hb2'⟩ := encode_clean _ _ L s hs hc
@@ -981,26 +992,24 @@ theorem containsEsc_iff_infix (s : Str) : containsEsc s = true ↔ escPrefix <:+
     rw [List.infix_cons_iff, ← ih, ← List.isPrefixOf_iff_prefix]
     simp [containsEsc]
 
-/-- F1 (before fix C09-1): "x€" is written `x\U+20ac`, which no reader decodes -/
-theorem legacy_lowerhex_not_decoded (u : UniTab) :
+/-- F1 (before fix 2e4902f68): "x€" was written `x\U+20ac`, which no reader decodes -/
+theorem legacy_lowerhex_not_decoded :
     encode asciiCodec legacyFmt [120, 0x20AC] = .ok [120, 92, 85, 43, 50, 48, 97, 99]
     ∧ hasDxfUnicode [120, 92, 85, 43, 50, 48, 97, 99] = false
-    ∧ decodeDxfUnicode u (asciiCodec.dec [120, 92, 85, 43, 50, 48, 97, 99]) = .ok [120, 92, 85, 43, 50, 48, 97, 99] := by
+    ∧ decodeDxfUnicode (asciiCodec.dec [120, 92, 85, 43, 50, 48, 97, 99]) = [120, 92, 85, 43, 50, 48, 97, 99] := by
   refine ⟨by decide +kernel, by decide +kernel, ?_⟩
   have : asciiCodec.dec [120, 92, 85, 43, 50, 48, 97, 99] = [120, 92, 85, 43, 50, 48, 97, 99] := by decide +kernel
   rw [this]
-  unfold decodeDxfUnicode
-  rw [reSplit_lit _ [] (by decide +kernel)]
-  simp [joinDecoded, decodePart, escPrefix, Except.map]
+  exact decode_nomatch _ (by decide +kernel)
 
-/-- F2 (before fix C09-1): "ä" under cp1251 is written `\xe4`, which no reader decodes -/
-theorem legacy_latin1_not_decoded (u : UniTab) :
+/-- F2 (before fix 2e4902f68): "ä" under cp1251 was written `\xe4`, which no reader decodes -/
+theorem legacy_latin1_not_decoded :
     encode (sbcsCodec cp1251Table) legacyFmt [0xE4] = .ok [92, 120, 101, 52]
-    ∧ decodeDxfUnicode u ((sbcsCodec cp1251Table).dec [92, 120, 101, 52]) = .ok [92, 120, 101, 52] := by
+    ∧ decodeDxfUnicode ((sbcsCodec cp1251Table).dec [92, 120, 101, 52]) = [92, 120, 101, 52] := by
   refine ⟨by decide +kernel, ?_⟩
   have : (sbcsCodec cp1251Table).dec [92, 120, 101, 52] = [92, 120, 101, 52] := by decide +kernel
   rw [this]
-  exact decode_lit u _ (by decide +kernel)
+  exact decode_nomatch _ (by decide +kernel)
 
 /-! ## raw bytes survive (surrogateescape in the reverse direction) -/
 
@@ -1253,17 +1262,19 @@ theorem utf8_bytes_roundtrip (f : Fmt) (hf : Delegates f) (b : Bytes) (hb : ∀ 
 
 -- "x€ä" under cp1251 with the fixed handler: € = 0x88 is encodable, ä is escaped, and decoded again
 #guard encode (sbcsCodec cp1251Table) fixedFmt [120, 0x20AC, 0xE4] == .ok [120, 0x88, 92, 85, 43, 48, 48, 69, 52]
-#guard decodeDxfUnicode uniTab ((sbcsCodec cp1251Table).dec [120, 0x88, 92, 85, 43, 48, 48, 69, 52]) == .ok [120, 0x20AC, 0xE4]
-#guard recoverStr uniTab ((sbcsCodec cp1251Table).dec [120, 0x88, 92, 85, 43, 48, 48, 69, 52]) == .ok (.text [120, 0x20AC, 0xE4])
+#guard decodeDxfUnicode ((sbcsCodec cp1251Table).dec [120, 0x88, 92, 85, 43, 48, 48, 69, 52]) == [120, 0x20AC, 0xE4]
+#guard recoverStr ((sbcsCodec cp1251Table).dec [120, 0x88, 92, 85, 43, 48, 48, 69, 52]) == .text [120, 0x20AC, 0xE4]
 -- the same string under the pre-fix handler is not recovered
 #guard encode (sbcsCodec cp1251Table) legacyFmt [120, 0x20AC, 0xE4] == .ok [120, 0x88, 92, 120, 101, 52]
-#guard decodeDxfUnicode uniTab ((sbcsCodec cp1251Table).dec [120, 0x88, 92, 120, 101, 52]) != .ok [120, 0x20AC, 0xE4]
--- the hypotheses of `escape_roundtrip` are met by a non-trivial string (BMP, no U+DC80..DCFF, no literal `\U+`)
-example : containsEsc [92, 85, 120, 0x20AC, 0xE4, 43] = false := by decide
+#guard decodeDxfUnicode ((sbcsCodec cp1251Table).dec [120, 0x88, 92, 120, 101, 52]) != [120, 0x20AC, 0xE4]
+-- the hypotheses of `escape_roundtrip` are met by a non-trivial string (BMP, no U+DC80..DCFF, no literal escape;
+-- the text `\U+` itself may occur: since fix 3fc8e70de only a full `\U+XXXX` is converted)
+example : hasDxfUnicode [92, 85, 43, 120, 0x20AC, 0xE4, 43, 92, 85, 43, 50, 48, 97] = false := by decide
+#guard decodeDxfUnicode (asciiCodec.dec ((encode asciiCodec fixedFmt [92, 85, 43, 120, 0x20AC]).toOption.getD [])) == [92, 85, 43, 120, 0x20AC]
 example : ∀ x ∈ [92, 85, 120, 0x20AC, 0xE4, 43], x ≤ 0xFFFF ∧ isEscSurrogate x = false := by decide
 -- and they are needed: a literal `\U+0041` is decoded to "A" (so it cannot round-trip)
-#guard decodeDxfUnicode uniTab [92, 85, 43, 48, 48, 52, 49] == .ok [65]
-example : containsEsc [92, 85, 43, 48, 48, 52, 49] = true := by decide
+#guard decodeDxfUnicode [92, 85, 43, 48, 48, 52, 49] == [65]
+example : hasDxfUnicode [92, 85, 43, 48, 48, 52, 49] = true := by decide
 -- U+DC80..DCFF is passed through as a raw byte (surrogateescape), not escaped
 #guard encode asciiCodec fixedFmt [0xDC80] == .ok [0x80]
 -- UTF-8: model encoder/decoder on a 1-, 2-, 3- and 4-byte character; a lone surrogate is escaped
